@@ -4,6 +4,9 @@ import PeliteModel.Lemmas.VersionRoundTrip
 C13 helper lemmas, part 6: nesting of the reported nodes, node-count bound, `Language::parse` on hex
 keys, and the spec-side reading of an event list (triples, translation).
 -/
+set_option linter.unusedSimpArgs false
+set_option linter.unnecessarySimpa false
+
 namespace Pelite.Version
 open Spec
 
